@@ -36,17 +36,25 @@ func vSameTrace(a, b []VTreeOp) bool {
 	return ok
 }
 
-func vC11Addr(name string) common.Address {
-	return VAddr(byte(vChoice(name, 3) + 1))
+// three addresses in the quick tier (two mutations), two in the thorough tier (three mutations)
+func vC11Addrs() int {
+	if vThorough() {
+		return 2
+	}
+	return 3
 }
 
-//verif:obligation C11.a tier=quick bounds=3-addresses,arbitrary-pre-state(present/absent,flags,delegatee),<=2-mutations(quick)/3(thorough)-of-SetValidated/SetOnline/Remove/SetDiscriminated/SetDelegatee/RemoveDelegatee,diff-through-its-stored/served-encoding covers=deleted,updated,end
+func vC11Addr(name string) common.Address {
+	return VAddr(byte(vChoice(name, vC11Addrs()) + 1))
+}
+
+//verif:obligation C11.a tier=quick paths=400000 bounds=3-addresses(quick)/2(thorough),arbitrary-pre-state(present/absent,flags,delegatee),<=2-mutations(quick)/3(thorough)-of-SetValidated/SetOnline/Remove/SetDiscriminated/SetDelegatee/RemoveDelegatee,diff-through-its-stored/served-encoding covers=deleted,updated,end
 // IdentityStateDB: Precommit (real) on the producer, the diff through ToBytes/FromBytes (as stored by
 // WriteIdentityStateDiff and served to fast-syncing peers), AddDiff (real) on a syncer with the same
 // previous identity state: identical tree operations, identical contents.
 func H_C11a() {
 	prod, sync := VNewIdentityStateDB(), VNewIdentityStateDB()
-	for i := byte(1); i <= 3; i++ {
+	for i := byte(1); i <= byte(vC11Addrs()); i++ {
 		if vBool("pre.present") {
 			ai := ApprovedIdentity{Validated: vBool("pre.validated"), Online: vBool("pre.online"), Discriminated: vBool("pre.discriminated")}
 			vAssume(vOr(ai.Validated, ai.Online)) // empty objects are deleted at every commit
@@ -99,7 +107,7 @@ func H_C11a() {
 	sync.AddDiff(height, served)
 
 	vAssert(vSameTrace(prod.VTree().Trace, sync.VTree().Trace), "replaying the stored identity diff performs exactly the producer's tree operations (same root)")
-	for i := byte(1); i <= 3; i++ {
+	for i := byte(1); i <= byte(vC11Addrs()); i++ {
 		_, pv := prod.VTree().Get(StateDbKeys.IdentityKey(VAddr(i)))
 		_, sv := sync.VTree().Get(StateDbKeys.IdentityKey(VAddr(i)))
 		vAssert(bytes.Equal(pv, sv), "after the replay both identity trees hold the same value for every address")
